@@ -1213,7 +1213,7 @@ impl Job for NucleoScript {
         self.weak
     }
     fn yield_every(&self) -> u32 {
-        if self.writers.iter().flatten().any(|o| matches!(o, WOp::ExtendBig { .. })) {
+        if self.writers.iter().flatten().any(|o| matches!(o, WOp::ExtendBig { .. } | WOp::ExtendKiller { .. })) {
             16
         } else {
             1
